@@ -55,6 +55,11 @@ def hashy_program(seed):
 
 
 def program_text(kind, seed):
+    if kind == "builtin":
+        # built-in functions stored in containers and called there: whatever they answer, they answer it every time
+        from .. import rawfiles
+        progs = [data.decode("utf-8") for name, data, k in rawfiles.cases() if name == "builtin_in_container"]
+        return progs[seed % len(progs)]
     if kind == "hashy":
         prog = hashy_program(seed)
     elif kind == "fail":
@@ -212,7 +217,8 @@ def monitor_work(arg):
 # ------------------------------------------------------------------ canonical rendering
 
 def corpus(depth, rng, limit):
-    atoms = [None, True, False, 0, -7, 12345678901234, "", "a", "two words", "é✓", "tab\there", "x\n", "l1\nl2", "\n", "cr\r\nlf"]
+    atoms = [None, True, False, 0, -7, 12345678901234, "", "a", "two words", "é✓", "tab\there", "x\n", "l1\nl2", "\n", "cr\r\nlf",
+             "esc\x1b[0m", "bell\x07", "nul\x00in", "del\x7f", "\x01\x02", "back\\slash", "quo\"te"]      # control characters and quoting characters are written raw
     level = [atoms]
     for d in range(depth):
         prev = [v for lv in level for v in lv]
@@ -365,7 +371,7 @@ def run(rep, tier):
     nprog = 900 if tier == "quick" else 12000
     jobs = []
     for i in range(nprog):
-        kind = ["hashy", "progen", "fail", "hashy"][i % 4]
+        kind = ["hashy", "progen", "fail", "hashy", "builtin"][i % 5] if i % 20 == 4 else ["hashy", "progen", "fail", "hashy"][i % 4]
         jobs.append((kind, rng.randrange(1 << 40), core.BIN_PLAIN if i % 3 else core.BIN_VERIF))
     for res in core.pool().imap_unordered(perturb_work, jobs, chunksize=2):
         if res["skipped"]:
